@@ -481,6 +481,25 @@ impl From<DataOperation<'_>> for Value {
     }
 }
 
+#[cfg(jsonlogic_rs_verif)]
+impl Operation<'_> {
+    pub(crate) fn verif_symbol(&self) -> &'static str {
+        self.operator.symbol
+    }
+}
+#[cfg(jsonlogic_rs_verif)]
+impl LazyOperation<'_> {
+    pub(crate) fn verif_symbol(&self) -> &'static str {
+        self.operator.symbol
+    }
+}
+#[cfg(jsonlogic_rs_verif)]
+impl DataOperation<'_> {
+    pub(crate) fn verif_symbol(&self) -> &'static str {
+        self.operator.symbol
+    }
+}
+
 struct OpArgs<'a, 'b, T> {
     op: &'a T,
     args: Vec<&'b Value>,
